@@ -8,14 +8,18 @@ REGISTRY = {}
 
 
 def rc_property(harness, quick, thorough, rule, level="exploration", assumptions=None, variant="asan",
-                shards=vlib.NCPU, extra_env=None, timeout=7200):
+                shards=vlib.NCPU, extra_env=None, timeout=7200, post=None, env_fn=None):
     """Generic rapidcheck-harness property: (cases per shard, max_size) per tier."""
     assumptions = assumptions or []
+    extra_env_ = extra_env
 
     def run(prop, tier, replay, t0):
         vlib.ensure_build(variant)
         binary = vlib.build_harness(harness, "rc", variant)
         wd = vlib.workdir(prop)
+        extra_env = dict(extra_env_ or {})
+        if env_fn:
+            extra_env.update(env_fn(wd))
         try:
             if replay:
                 st, o = vlib.replay_case(binary, os.path.abspath(replay), wd, known="", tag="user", extra_env=extra_env)
@@ -30,6 +34,8 @@ def rc_property(harness, quick, thorough, rule, level="exploration", assumptions
             per_shard, max_size = quick if tier == "quick" else thorough
             vlib.run_rc(prop, binary, wd, out, per_shard, max_size, shards=shards,
                         known_ids=[f.id for f in findings], extra_env=extra_env, tier=tier, timeout=timeout)
+            if post:
+                post(prop, binary, wd, out, tier)
             out.extra["shards"] = shards
             out.extra["cases_per_shard"] = per_shard
             out.extra["max_size"] = max_size
@@ -41,19 +47,10 @@ def rc_property(harness, quick, thorough, rule, level="exploration", assumptions
     return run
 
 
-REGISTRY["C28"] = rc_property(
-    "C28", quick=(1500, 40), thorough=(40000, 60),
-    rule="case = history of add/remove/freeze/defrost/autoFreeze/clear/query over alphabet {a,b,c,0xE9}, keys of "
-         "length 1-5; after every mutating step every string up to length 4 (4 letters) and lengths 5-6 over {a,b} "
-         "(436 strings; lengths<=3 only for long quick histories) is queried frozen and unfrozen against a std::map. "
-         "Non-trivial = some query extends its model answer by >=2 characters along a branch that exists in the trie "
-         "(the only place where frozen and unfrozen walks differ). Distinct = distinct serialised history.",
-    assumptions=["keys are non-empty (has(c, 0) is documented to raise)", "trie copy construction is not part of the property"])
 
-# more properties are registered by the modules below
-for _m in ("props_api", "props_text", "props_okl", "props_proc"):
-    try:
-        __import__(_m)
-    except ImportError as e:  # module not written yet
-        if _m not in str(e):
-            raise
+# every lib/p_*.py module registers its properties into REGISTRY (and its metadata into meta.META)
+def _load_modules():
+    import glob
+    import importlib
+    for f in sorted(glob.glob(os.path.join(os.path.dirname(os.path.abspath(__file__)), "p_*.py"))):
+        importlib.import_module(os.path.basename(f)[:-3])
